@@ -606,7 +606,10 @@ func (m *Memory) Sync() error {
 	defer m.mx.Unlock()
 	m.syncMx.Lock()
 	defer m.syncMx.Unlock()
-	m.writeDb(false)
+	// wait for the write: the records have to show in queries from now on
+	if done := m.writeDb(false); done != nil {
+		<-done
+	}
 
 	m.log("sync OK")
 
@@ -687,9 +690,9 @@ func (m *Memory) encode(v any) ([]byte, error) {
 }
 
 // writeDb requires [Memory.mx].
-func (m *Memory) writeDb(rLocked bool) {
+func (m *Memory) writeDb(rLocked bool) <-chan struct{} {
 	if m.SavePending.Load() <= 0 {
-		return
+		return nil
 	}
 
 	q := m.queue
@@ -707,7 +710,9 @@ func (m *Memory) writeDb(rLocked bool) {
 	m.SavePending.Add(-int32(l))
 
 	// fork
+	done := make(chan struct{})
 	go func() {
+		defer close(done)
 		if rLocked {
 			defer m.syncMx.RUnlock()
 		}
@@ -773,6 +778,8 @@ func (m *Memory) writeDb(rLocked bool) {
 			m.onErr(err)
 		}
 	}()
+
+	return done
 }
 
 func (m *Memory) checkGc() {
